@@ -70,6 +70,9 @@ package align
 
 // the result lists, in increasing order and without repetition, exactly the case-folded characters that occur in the bag
 // (the function indexes a 130-entry table: residues are required to be below 130, as for CharStats)
+// number of characters below x that are present
+//@ pure func c14c_rk(p []bool, x int) int = (x <= 0 ? 0 : c14c_rk(p, x-1) + (p[x-1] ? 1 : 0))
+
 //@ func (*seqbag).UniqueCharacters
 //@   props C14 C19
 //@   requires sb != nil && rowsok(sb)
@@ -77,6 +80,7 @@ package align
 //@   ensures fresh(chars) && len(chars) <= 130
 //@   ensures forall j, x :: 0 <= j && j < len(chars) && x == chars[j] ==> 0 <= x && x < 130 && old(c14c_inbag(sb, x, nrows(sb)))
 //@   ensures forall j :: 0 <= j && j + 1 < len(chars) ==> chars[j] < chars[j+1]
+//@   hint forall x :: 0 <= x && x < 130 && present[x] ==> 0 <= c14c_rk(present, x) && c14c_rk(present, x) < len(chars) && chars[c14c_rk(present, x)] == x
 //@   ensures forall x :: 0 <= x && x < 256 && old(c14c_inbag(sb, x, nrows(sb))) ==> c14c_inchars(chars, len(chars), x)
 //@   modifies nothing
 //@   loop 1
@@ -97,7 +101,9 @@ package align
 //@     invariant forall x :: 130 <= x && x < 256 ==> !old(c14c_inbag(sb, x, nrows(sb)))
 //@     invariant forall j :: 0 <= j && j < len(chars) ==> chars[j] < $i && present[chars[j]]
 //@     invariant forall j :: 0 <= j && j + 1 < len(chars) ==> chars[j] < chars[j+1]
-//@     invariant forall x :: 0 <= x && x < $i && present[x] ==> c14c_inchars(chars, len(chars), x)
+// membership by an explicit witness (the rank of x among the present characters) instead of an existential
+//@     invariant len(chars) == c14c_rk(present, $i) && 0 <= c14c_rk(present, $i)
+//@     invariant forall x :: 0 <= x && x < $i && present[x] ==> 0 <= c14c_rk(present, x) && c14c_rk(present, x) < len(chars) && chars[c14c_rk(present, x)] == x
 //@     decreases 130 - $i
 
 // ---- count profile (reference counts per character and site) ----
